@@ -30,7 +30,13 @@ STUB = ["event loop (SimLoop)", "transport (SimTransport with latency tape)"]
 ASSUMPTIONS = ["constraints from the property text are the oracle"]
 REQUIRED_PROBES = ["context_reentered", "sparse_registry", "registry_has_0", "registry_has_254", "registry_has_255", "too_many_nodes",
                    "two_requests", "request_after_presentation_of_handed_out_id", "dense_to_limit"]
-ASPECTS = ("idalloc",)
+ASPECTS = ("idalloc", "registry")
+
+
+def KEEP(aspect, site):
+    # ids that were handed out and saved must still be taken after a restart: the registry of the new process is
+    # the saved one, whatever happened at a failed start in between
+    return aspect == "idalloc" or site.startswith("after-restart")
 SPREAD = [0, 1, 2, 7, 100, 253, 254, 255]
 
 
@@ -91,7 +97,8 @@ def _gen(seed: int, i: int, tier: str) -> dict:
         cfg["persist"] = True
         k = rng.randint(1, max(1, len(ops)))
         tail = [["diskfault", rng.choice(["open", "write"]), [rng.choice(["ENOSPC", "EIO"])]]] if rng.random() < 0.7 else []
-        ops = ops[:k] + tail + [["reenter"]] + [["line", "255;255;3;0;3;\n"] for _ in range(rng.randint(1, 3))] + ops[k:]
+        again = [["reenter"]] if tail or rng.random() < 0.5 else [["restart", rng.random() < 0.6]]
+        ops = ops[:k] + tail + again + [["line", "255;255;3;0;3;\n"] for _ in range(rng.randint(1, 3))] + ops[k:]
         lat = []
     return {"cfg": cfg, "proto": proto, "ops": ops, "tapes": {"w.lat": lat}, "ids": ids}
 
@@ -107,7 +114,7 @@ def gen(seed: int, i: int, tier: str) -> dict:
 def run(scn):
     if scn.get("kind") == "universe":
         from vsim.universe import run_universe
-        return run_universe(scn, PROP, ASPECTS, keep=None)
+        return run_universe(scn, PROP, ASPECTS, keep=KEEP)
     ids = scn.get("ids", [])
     st = {"last_id": None, "reqs": 0, "presented_handed": False}
     ops = scn["ops"]
@@ -152,7 +159,7 @@ def run(scn):
             if parts[2] == "0" and parts[1] == "255" and st["last_id"] is not None and int(parts[0]) == st["last_id"]:
                 st["presented_handed"] = True
 
-    res = execute(scn2, PROP, ASPECTS, on_step=on_step2)
+    res = execute(scn2, PROP, ASPECTS, on_step=on_step2, keep=KEEP)
     if ids:
         s = sorted(ids)
         if s != list(range(s[0], s[0] + len(s))):
